@@ -399,6 +399,7 @@ pub fn cc_subjects() -> Vec<Subject> {
     v.push(unstable(cc_subject::<HashMap<u8, u16>>("HashMap<u8,u16>", false, |r| {
         g_vec(r, |r| (r.below(30) as u8, g_u64(r) as u16)).into_iter().collect()
     })));
+    v.push(ctx_limit_subject());
     // contextual collections with every size length
     v.push(cc_subject::<VecU16L8>("Vec<u16>@U8", false, |r| VecU16L8(g_vec(r, |r| g_u64(r) as u16))));
     v.push(cc_subject::<VecU8L16>("Vec<u8>@U16", false, |r| {
@@ -455,4 +456,49 @@ pub fn cc_subjects() -> Vec<Subject> {
         contracts: g_named(r, g_contract_v3),
     }));
     v
+}
+
+/// `serial_ctx` at the limits of the length prefix: a collection with 2^8 / 2^16 or more elements has
+/// no encoding with a 1 / 2 byte prefix. The encoder may refuse; if it reports success, the bytes
+/// must decode to the value.
+fn ctx_limit_subject() -> Subject {
+    use codeccore::families::CcReader;
+    use simcore::faultio::{ReadPlan, SimReader};
+    fn check<T: SerialCtx + DeserialCtx + PartialEq>(what: &str, sl: SizeLength, v: T, n: usize, plan: &ReadPlan) -> Result<(), String> {
+        let mut out: Vec<u8> = Vec::new();
+        if v.serial_ctx(sl, &mut out).is_err() {
+            return Ok(());
+        }
+        let mut r = CcReader(SimReader::new(&out, plan));
+        match T::deserial_ctx(sl, true, &mut r) {
+            Ok(v2) if v2 == v && r.0.consumed() == out.len() => Ok(()),
+            Ok(_) => Err(format!(
+                "serial_ctx reported success for a {} of {} elements with length prefix {:?}, but its {} bytes decode to a different value or leave bytes over",
+                what,
+                n,
+                sl,
+                out.len()
+            )),
+            Err(_) => Err(format!("serial_ctx reported success for a {} of {} elements with length prefix {:?}, but the bytes do not decode", what, n, sl)),
+        }
+    }
+    let mut s = cc_subject::<VecU8L16>("serial_ctx at the length-prefix limits", false, |r| {
+        let n = g_len(r);
+        VecU8L16(r.bytes(n))
+    });
+    s.typed = Box::new(|seed, plan| {
+        let mut rng = Rng::new(seed);
+        let small = *rng.pick(&[254usize, 255, 256, 257, 300, 512]);
+        let big = *rng.pick(&[65534usize, 65535, 65536, 65537, 65540, 70000, 131072]);
+        match rng.below(7) {
+            0 => check("Vec<u8>", SizeLength::U8, vec![7u8; small], small, plan),
+            1 => check("Vec<u8>", SizeLength::U16, vec![7u8; big], big, plan),
+            2 => check("String", SizeLength::U8, "x".repeat(small), small, plan),
+            3 => check("String", SizeLength::U16, "x".repeat(big), big, plan),
+            4 => check("BTreeSet<u32>", SizeLength::U8, (0..small as u32).collect::<BTreeSet<u32>>(), small, plan),
+            5 => check("BTreeMap<u16,u8>", SizeLength::U8, (0..small as u16).map(|k| (k, 1u8)).collect::<BTreeMap<u16, u8>>(), small, plan),
+            _ => check("Vec<u16>", SizeLength::U16, vec![9u16; big], big, plan),
+        }
+    });
+    s
 }
